@@ -3,6 +3,7 @@ package props
 import (
 	"fmt"
 	"sort"
+	"strconv"
 	"strings"
 
 	"github.com/osteele/liquid"
@@ -147,6 +148,36 @@ func c19Compare(r *explore.Rec, ti int, given, eff [4]string, family string) {
 	}
 }
 
+// c19OpaqueBodies: two raw (and two comment) blocks whose bodies END in characters of the delimiters themselves
+// (the first character of the tag opener, the whole opener, the first character of the object opener and of the tag
+// closer) right before the end tag: each block ends at its own first end tag, the bodies are verbatim / dropped.
+func c19OpaqueBodies(r *explore.Rec, q [4]string) {
+	seen := map[string]bool{}
+	for _, c := range []string{q[2][:1], q[2], q[0][:1], q[3][:1], q[2][len(q[2])-1:]} {
+		if seen[c] {
+			continue
+		}
+		seen[c] = true
+		for _, kind := range []string{"raw", "comment"} {
+			src := q[2] + kind + q[3] + "a" + c + q[2] + "end" + kind + q[3] + "m" + q[2] + " " + kind + " " + q[3] + "b" + c + q[2] + " end" + kind + " " + q[3] + "z"
+			want := "a" + c + "mb" + c + "z"
+			if kind == "comment" {
+				want = "mz"
+			}
+			r.Eval()
+			var o Outcome
+			o.Panic = explore.Safe(func() {
+				out, err := liquid.NewEngine().Delims(q[0], q[1], q[2], q[3]).ParseAndRender([]byte(src), c19Bind())
+				o.Out, o.Err = string(out), err
+			})
+			r.Class("opaque-body/" + kind + "/" + o.Class())
+			if o.Panic != nil || o.Err != nil || o.Out != want {
+				r.Violation("differs:opaque-body-ending-in-delimiter-characters:"+kind, map[string]any{"delims": q, "template": src}, strconv.Quote(want), o.String())
+			}
+		}
+	}
+}
+
 func c19Strings(p []string, maxLen int) []string {
 	out := []string{}
 	cnt := seqCount(len(p), maxLen)
@@ -177,6 +208,7 @@ func c19Families(tier string) []explore.Family {
 		for ti := 0; ti < nt; ti++ {
 			c19Compare(r, ti, q, q, "len<=2")
 		}
+		c19OpaqueBodies(r, q)
 	}})
 	// quadruples that spell the SAME string when concatenated (e.g. < >> [ ] and <> > [ ]) used back to back, in both
 	// orders, with nothing scanned in between: whatever is remembered about delimiters must distinguish them.
